@@ -170,6 +170,10 @@ func (pl *LowNodeLoad) processOneNodePool(ctx context.Context, nodePool *desched
 	nodeThresholds := getNodeThresholds(nodeUsages, lowThresholds, highThresholds, prodLowThresholds, prodHighThresholds, resourceNames, nodePool.UseDeviationThresholds)
 	lowNodes, sourceNodes, prodLowNodes, prodHighNodes, bothLowNodes := classifyNodes(nodeUsages, nodeThresholds, lowThresholdFilter, highThresholdFilter, prodLowThresholdFilter, prodHighThresholdFilter)
 
+	// "Consecutive" abnormalities: a node that is not abnormal in this round starts over.
+	forgetNonSourceNodes(nodes, sourceNodes, pl.nodeAnomalyDetectors)
+	forgetNonSourceNodes(nodes, prodHighNodes, pl.prodAnomalyDetectors)
+
 	logUtilizationCriteria(nodePool.Name, "Criteria for nodes under low thresholds and above high thresholds", lowThresholds, highThresholds,
 		prodLowThresholds, prodHighThresholds, len(lowNodes), len(sourceNodes), len(prodLowNodes), len(prodHighNodes), len(bothLowNodes), len(nodes))
 
@@ -263,6 +267,20 @@ func (pl *LowNodeLoad) processOneNodePool(ctx context.Context, nodePool *desched
 		processedNodes.Insert(v.node.Name)
 	}
 	return nil
+}
+
+// forgetNonSourceNodes drops the anomaly detectors of the pool's nodes that are not source nodes
+// in the current round, so that only uninterrupted runs of abnormal rounds are counted.
+func forgetNonSourceNodes(nodes []*corev1.Node, sourceNodes []NodeInfo, nodeAnomalyDetectors *gocache.Cache) {
+	sources := sets.NewString()
+	for _, v := range sourceNodes {
+		sources.Insert(v.node.Name)
+	}
+	for _, v := range nodes {
+		if !sources.Has(v.Name) {
+			nodeAnomalyDetectors.Delete(v.Name)
+		}
+	}
 }
 
 func resetNodesAsNormal(lowNodes []NodeInfo, nodeAnomalyDetectors *gocache.Cache) {
